@@ -39,22 +39,25 @@ Definition enc_parse_result (o : outcome (resource * list perror)) : sexp :=
   | OutOfFuel => sym "OUT-OF-FUEL"
   end.
 
+Definition run_text_case (t : sexp) (text : bytes) : sexp :=
+  if is_sym "parse_all" t then
+    let a := enc_parse_result (parse text) in
+    let b := enc_parse_result (parse_runtime text) in
+    let tn := match parse_runtime text with
+              | Done (body, errs) =>
+                  L [sym "try_new"; (match errs with [] => sym "ok" | _ => sym "err" end);
+                     snat (length body); snat (length errs); sym "true"]
+              | _ => sym "PANIC"
+              end in
+    L [sym "ok"; a; a; b; b; tn; L [sym "same"; sym "true"; sym "true"]]
+  else if is_sym "parse" t || is_sym "parse_owned" t then enc_parse_result (parse text)
+  else if is_sym "parse_runtime" t || is_sym "parse_runtime_owned" t then enc_parse_result (parse_runtime text)
+  else bad.
+
 Definition run_case (c : sexp) : sexp :=
   match c with
-  | L [t; A text] =>
-      if is_sym "parse_all" t then
-        let a := enc_parse_result (parse text) in
-        let b := enc_parse_result (parse_runtime text) in
-        let tn := match parse_runtime text with
-                  | Done (body, errs) =>
-                      L [sym "try_new"; (match errs with [] => sym "ok" | _ => sym "err" end);
-                         snat (length body); snat (length errs); sym "true"]
-                  | _ => sym "PANIC"
-                  end in
-        L [sym "ok"; a; a; b; b; tn; L [sym "same"; sym "true"; sym "true"]]
-      else if is_sym "parse" t || is_sym "parse_owned" t then enc_parse_result (parse text)
-      else if is_sym "parse_runtime" t || is_sym "parse_runtime_owned" t then enc_parse_result (parse_runtime text)
-      else bad
+  | L [t; A text] => run_text_case t text
+  | L [t; A text; L _] => run_text_case t text          (* third field: expected tree, for the oracle only *)
   | L [t; L cs; x] =>
       (* (render (choice ...) <resource>) -> (ok #text wf?) *)
       if is_sym "render" t then
